@@ -33,7 +33,7 @@ AUDIO_FILES = ["a.wav", "sub dir/b.wav", "ünï/c.wav"]
 PCM_GUID = bytes.fromhex("0100000000001000800000aa00389b71")
 
 
-def wav_header(sr, ch, frames, bits=16, layout="plain") -> bytes:
+def wav_header(sr, ch, frames, bits=16, layout="plain", enc="pcm") -> bytes:
     """RIFF/WAVE header. Layouts: the canonical 44 bytes; a LIST/INFO chunk
     between ``fmt `` and ``data`` (what most editors write); a
     WAVE_FORMAT_EXTENSIBLE ``fmt `` chunk (what recorders write for 24 bit
@@ -44,11 +44,13 @@ def wav_header(sr, ch, frames, bits=16, layout="plain") -> bytes:
     if layout == "extensible":
         fmt = struct.pack(
             "<HHIIHHHHI16s", 0xFFFE, ch, sr, (sr * block) & 0xFFFFFFFF, block,
-            bits, 22, bits, 0, PCM_GUID,
+            bits, 22, bits, 0,
+            (b"\x03" if enc == "float" else b"\x01") + PCM_GUID[1:],
         )
     else:
         fmt = struct.pack(
-            "<HHIIHH", 1, ch, sr, (sr * block) & 0xFFFFFFFF, block, bits
+            "<HHIIHH", 3 if enc == "float" else 1, ch, sr,
+            (sr * block) & 0xFFFFFFFF, block, bits,
         )
     chunks = struct.pack("<4sI", b"fmt ", len(fmt)) + fmt
     if layout == "list":
@@ -68,7 +70,12 @@ def sample_values(salt, first, count, ch, bits=16) -> np.ndarray:
     return v.astype(np.int64) - (1 << (bits - 1))
 
 
-def pcm_bytes(values: np.ndarray, bits: int) -> bytes:
+def pcm_bytes(values: np.ndarray, bits: int, enc="pcm") -> bytes:
+    if enc == "float":
+        # IEEE float samples: value / 2**15, exact in 32 bits
+        return (values.astype(np.float64) / 32768.0).astype("<f4").tobytes()
+    if bits == 8:
+        return (values + 128).astype(np.uint8).tobytes()  # WAV 8 bit is unsigned
     if bits == 16:
         return values.astype("<i2").tobytes()
     if bits == 32:
@@ -147,8 +154,8 @@ class AudioSim(AoefSim):
         os.makedirs(os.path.dirname(path), exist_ok=True)
         raw = (
             wav_header(st["sr"], st["ch"], st["header"], st["bits"],
-                       st.get("layout", "plain"))
-            + pcm_bytes(st["frames"], st["bits"])[: st["payload_bytes"]]
+                       st.get("layout", "plain"), st.get("enc", "pcm"))
+            + pcm_bytes(st["frames"], st["bits"], st.get("enc", "pcm"))[: st["payload_bytes"]]
         )
         if st["broken"]:
             raw = raw[: st["broken"]]
@@ -183,14 +190,19 @@ class AudioSim(AoefSim):
 
     def do_create(self, op):
         bits = op.get("bits", 16)
-        frames = sample_values(op["salt"], 0, op["frames"], op["ch"], bits)
+        enc = "pcm"
+        if bits == "f32":
+            bits, enc = 32, "float"
+        vbits = 16 if enc == "float" else bits
+        frames = sample_values(op["salt"], 0, op["frames"], op["ch"], vbits)
         self.afiles[op["f"]] = {
             "sr": op["sr"], "ch": op["ch"], "header": op["frames"],
             "salt": op["salt"], "frames": frames, "bits": bits,
+            "enc": enc, "vbits": vbits,
             "payload_bytes": frames.size * bits // 8, "broken": 0,
             "layout": op.get("layout", "plain"),
         }
-        self.probes.hit(f"file:pcm-{bits}")
+        self.probes.hit(f"file:{enc}-{bits}")
         self.probes.hit(f"file:header-{op.get('layout', 'plain')}")
         if op["frames"] >= 65_536:
             self.probes.hit("file:>=65536-frames")
@@ -219,7 +231,7 @@ class AudioSim(AoefSim):
             return self.record(op, "skipped")
         # a torn payload is completed first (the copy resumed)
         have = len(st["frames"])
-        more = sample_values(st["salt"], have, op["frames"], st["ch"], st["bits"])
+        more = sample_values(st["salt"], have, op["frames"], st["ch"], st["vbits"])
         st["frames"] = np.concatenate([st["frames"], more])
         st["payload_bytes"] = st["frames"].size * st["bits"] // 8
         if op.get("rewrite_header", True):
@@ -460,7 +472,7 @@ class AudioSim(AoefSim):
         for o in sorted(o_c):
             want = np.zeros((n, st["ch"]))
             have = disk[o : o + n]
-            want[: len(have)] = have.astype(np.float64) / float(1 << (st["bits"] - 1))
+            want[: len(have)] = have.astype(np.float64) / float(1 << (st["vbits"] - 1))
             if np.array_equal(want, data):
                 ok_data = True
                 want_t = (o + np.arange(n)) / sr
@@ -557,7 +569,7 @@ class AudioSim(AoefSim):
             return
         want = np.zeros((shape[0], st["ch"]))
         have = disk[: shape[0]]
-        want[: len(have)] = have.astype(np.float64) / float(1 << (st["bits"] - 1))
+        want[: len(have)] = have.astype(np.float64) / float(1 << (st["vbits"] - 1))
         if shape[0] != len(disk):
             self.probes.hit("C15:load_recording-length-differs-from-file")
         if not np.array_equal(want, data):
@@ -732,7 +744,8 @@ def draw_run_cfg(rng, focus, tier):
         "file_faults": rng.random() < 0.7,
         "p_boundary": rng.choice([0.2, 0.5, 0.8]),
         "relative": rng.choice([False, False, True, "cwd"]),
-        "bits": rng.choice([[16], [16], [16, 24, 32], [24], [32]]),
+        "bits": rng.choice([[16], [16], [16, 24, 32], [24], [32], [8, "f32"],
+                            [16, 8, "f32"]]),
         "layouts": rng.choice([["plain"], ["plain"], ["plain", "list", "extensible"],
                                ["list"], ["extensible"]]),
     }
